@@ -35,15 +35,20 @@ def det_scenarios(seed, tier):
     # the way callers evolve populations: seed the global source, then Experiment.Execute (two trials)
     execute = [{"seed": seed * 271 + k, "popsize": [10, 16][k % 2], "executor": "seq", "start": ["xor", "rich"][k % 2],
                 "fitness": [6, 2][k % 2], "epochs": 6, "preset": [0, 5][k % 2], "via": "execute"} for k in range(2)]
-    modular = modular + ties + reseed + execute
+    # wall-clock time: at log level debug (the same in every process), several species; one perturbed process lets more than a
+    # second pass before two of the epochs, another a few milliseconds before each
+    clock = [{"seed": seed * 151 + k, "popsize": [24, 40][k % 2], "executor": "seq", "start": ["rich", "xor"][k % 2], "fitness": [6, 7][k % 2],
+              "epochs": 5, "preset": [0, 3][k % 2], "loglevel": "debug",
+              "override": {"thr": [0.3, 0.2][k % 2], "addnode": 0.3, "addlink": 0.3}} for k in range(1 if tier == "quick" else 3)]
+    modular = modular + ties + reseed + execute + clock
     if tier == "quick":
         picked = scs[::4][:10] + modular
         for s in picked:
-            s["epochs"] = max(8, s["epochs"] if s.get("override") else 0)
+            s["epochs"] = max(8, s["epochs"] if s.get("override") else 0) if not s.get("loglevel") else s["epochs"]
     else:
         picked = scs + modular + [dict(m, seed=m["seed"] + 10, preset=(m["preset"] + 1) % 6) for m in modular]
         for i, s in enumerate(picked):
-            s["epochs"] = (40 if s["popsize"] <= 20 else 20) if s.get("via") != "execute" else 10
+            s["epochs"] = ((40 if s["popsize"] <= 20 else 20) if s.get("via") != "execute" else 10) if not s.get("loglevel") else 5
             s["seed"] = seed * 7919 + i
     return picked
 
